@@ -9,7 +9,7 @@
      no_deferring_locals  (no deferring attribute on the chain holds a local value; otherwise a
                            DelegatesTo assignment is stored past it). *)
 From Coq Require Import ZArith List Bool Arith.
-From TV Require Import Common.Harness C11.Model C11.Law C11.Proofs C11.Invariants.
+From TV Require Import Common.Harness C11.Model C11.Law C11.Proofs C11.Invariants C11.Chain.
 Import ListNotations.
 Open Scope Z_scope.
 
@@ -62,6 +62,30 @@ Theorem delegatesto_writes_delegate_only :
   st' = dict_set st p t w /\ forall g, read (100 + S g) st' o n = Ok w.
 Proof. exact delegatesto_write_then_read. Qed.
 Print Assumptions delegatesto_writes_delegate_only.
+
+(* the same two theorems with CHAIN-LOCAL hypotheses ([good_chain]: along the chain of this attribute no
+   hop holds a local value, and every '*'-style hop belongs to a class with the origin's __prefix__);
+   classes elsewhere may have any prefixes, other attributes any local values *)
+Theorem delegatesto_reads_target_chain_local :
+  forall st origin f cur d r m dn p t tr,
+    good_chain st origin cur dn ->
+    find_trait st cur dn = Some (Deleg d r m) ->
+    walk f st origin cur d r dn = Ok (p, t, tr) ->
+    (forall d' r' m', find_trait st p t <> Some (Deleg d' r' m')) /\
+    forall g, read (f + S g) st cur dn = read (S g) st p t.
+Proof. exact walk_read_agree_local. Qed.
+Print Assumptions delegatesto_reads_target_chain_local.
+
+Theorem delegatesto_writes_delegate_only_chain_local :
+  forall st o n d r p t k dflt v w,
+  good_chain st o o n ->
+  find_trait st o n = Some (Deleg d r true) ->
+  walk 100 st o o d r n = Ok (p, t, Normal k dflt) ->
+  validate k v = Some w -> (p < length (objs st))%nat ->
+  let st' := fst (fst (set_attr st o n v)) in
+  st' = dict_set st p t w /\ forall g, read (100 + S g) st' o n = Ok w.
+Proof. exact delegatesto_write_then_read_local. Qed.
+Print Assumptions delegatesto_writes_delegate_only_chain_local.
 
 (* PrototypedFrom: the assignment is validated by the trait at the end of the chain and stored in the
    deferring object only; it then reads as the local value *)
@@ -157,6 +181,15 @@ Theorem class_prefix_at_later_hop_witness :
   rd st0 2%nat A = Ok (VInt 5) /\ rd st1 2%nat A = Ok (VInt 5) /\ rd st1 0%nat [11%nat; 3%nat] = Ok (VInt 44).
 Proof. vm_compute. repeat split; reflexivity. Qed.
 Print Assumptions class_prefix_at_later_hop_witness.
+
+(* the chain-local hypothesis is met in that very pool by the attribute y (y -> m.r -> p.r, no '*' hop):
+   the theorems above apply to it although the pool does not meet [same_prefix] *)
+Example good_chain_in_mixed_prefix_pool : good_chain st0 2%nat 2%nat Y.
+Proof.
+  eapply GC_hop with (p := 1%nat); [reflexivity|reflexivity|reflexivity|exact I|reflexivity|].
+  eapply GC_hop with (p := 0%nat); [reflexivity|reflexivity|reflexivity|exact I|reflexivity|].
+  apply GC_end. intros d r m. vm_compute. discriminate.
+Qed.
 
 (* DelegatesTo over a PrototypedFrom attribute with a local value: c.y = 12 lands in p.r, c.y reads 30 *)
 Theorem through_local_witness :
